@@ -86,7 +86,7 @@ class Twin(System):
         if name == "CUSUM":
             q = dict(p)
             b = p["burn_in"]
-            last = [float(v) for v in state["stream"][-b:]] if b > 0 else []
+            last = [float(self.d.value(v, p)) for v in state["stream"][-b:]] if b > 0 else []
             # documented: mean and standard deviation re-estimated from the last burn_in observations
             q["target"] = float(np.mean(last)) if last else p.get("target")
             q["sd_hat"] = float(np.std(last)) if last else p.get("sd_hat")
@@ -254,8 +254,8 @@ def tasks(tier, seed):
     for name in ("DDM", "EDDM", "STEPD", "PageHinkley", "CUSUM"):
         d = DRIVERS[name]
         dq, dt, split = PLAN[name]
-        depth = (dq if tier == "quick" else dt) - (3 if name in ("DDM", "EDDM", "STEPD") else 0)
-        for ci, p in enumerate(d.configs(tier)):
+        depth = (dq if tier == "quick" else dt) - (3 if name in ("DDM", "EDDM", "STEPD") else (1 if name == "PageHinkley" else 0))
+        for ci, p in enumerate(d.all_configs(tier)):
             if name == "CUSUM" and p["burn_in"] == 0:
                 continue
             for pre in drift_prefixes(name, p, seeder=(lambda pos, n=name, i=ci: rng.seed_step(0 if pos == "init" else seed, n, i, pos))):
@@ -274,7 +274,7 @@ def tasks(tier, seed):
         d = DRIVERS[name]
         dq, dt, split = PLAN[name]
         depth = dq if tier == "quick" else dt
-        for ci, p in enumerate(d.configs(tier)):
+        for ci, p in enumerate(d.all_configs(tier)):
             if name == "KdqTreeBatch" and p.get("_no_initial_ref"):
                 continue
             if name == "CUSUM" and p["burn_in"] == 0:
@@ -319,7 +319,8 @@ def describe(tier):
         "bounds": {
             "depth": {k: (v[0] if tier == "quick" else v[1]) for k, v in PLAN.items()},
             "alphabets": {k: list(map(str, DRIVERS[k].symbols)) + (["set_reference(menu 1)", "set_reference(menu 3)"] if DRIVERS[k].kind == "batch" else []) for k in NAMES},
-            "parameter_sets": {k: len(DRIVERS[k].configs(tier)) for k in NAMES},
+            "parameter_sets": {k: len(DRIVERS[k].all_configs(tier)) for k in NAMES},
+            "families": "besides the plain parameter sets: DataFrame / list / float32 containers, integer-typed samples, level 3e7 / 1e6 and scale 1e-6 / 1e-3 for the univariate detectors (drivers.family_configs)",
         },
         "explanation": "differential oracle between two real objects; compared: drift_state, retraining_recs and total "
         "counter minus the epoch offset, since-reset counter, Page-Hinkley to_dataframe(), STEPD accuracies, HDM "
